@@ -132,8 +132,17 @@ func genSan(r *Rng) sanGen {
 	default:
 		o = tally.SanitizeOptions{NameCharacters: genValidChars(r).vc, KeyCharacters: genValidChars(r).vc, ValueCharacters: genValidChars(r).vc, ReplacementCharacter: genRep(r)}
 	}
+	if r.Chance(30) {
+		// the application keeps ONE options variable and refills it from root to root (a loop over per-backend settings
+		// taking the address of its loop variable does that): every root must be sanitized by what the variable held when
+		// the root was created
+		sharedSanOpts = o
+		return sanGen{&sharedSanOpts, vcTok(o.NameCharacters) + "/" + vcTok(o.KeyCharacters) + "/" + vcTok(o.ValueCharacters) + "/" + strconv.Itoa(int(o.ReplacementCharacter))}
+	}
 	return sanGen{&o, vcTok(o.NameCharacters) + "/" + vcTok(o.KeyCharacters) + "/" + vcTok(o.ValueCharacters) + "/" + strconv.Itoa(int(o.ReplacementCharacter))}
 }
+
+var sharedSanOpts tally.SanitizeOptions
 
 type scopeRun struct {
 	wide     bool // tag maps of 9-14 entries over 24 labels (merged maps beyond any small-input fast path)
@@ -180,7 +189,8 @@ type scopeRun struct {
 	indepViol   string
 	keyViol     string
 	missViol    string
-	hKind       map[int]byte // histogram metric id -> 'v' / 'd' as the library decided when it created the histogram
+	objNT       map[int]string // timers and histograms: metric id -> name|tags it was first handed out for
+	hKind       map[int]byte   // histogram metric id -> 'v' / 'd' as the library decided when it created the histogram
 	hNT         map[int]string
 	hScope      map[int]int
 	hLive       map[string]int64 // samples of the histogram's own kind recorded while its scope (and the root) was live
@@ -380,6 +390,30 @@ func (sr *scopeRun) checkSameObject(kind string, id int, was, now string) {
 		return
 	}
 	sr.sameObjViol = fmt.Sprintf("%s object %d was handed out for %s and is handed out again for %s", kind, id, was, now)
+}
+
+// noteObject: the one-object-one-identity oracle for timers and histograms (counters and gauges: noteCounter / noteGauge)
+func (sr *scopeRun) noteObject(kind string, m interface{}, p int, name string) {
+	if sr.scopes[p] == tally.NoopScope {
+		return
+	}
+	id, ok := sr.metricID[m]
+	if !ok {
+		return
+	}
+	full := sr.san.Name(name)
+	if pfx := tally.VerifScopePrefix(sr.scopes[p]); pfx != "" {
+		full = pfx + sr.sepS + full
+	}
+	nt := hxs(full) + "|" + mapHex(tally.VerifScopeTags(sr.scopes[p]))
+	if sr.objNT == nil {
+		sr.objNT = map[int]string{}
+	}
+	if old, seen := sr.objNT[id]; seen {
+		sr.checkSameObject(kind, id, old, nt)
+		return
+	}
+	sr.objNT[id] = nt
 }
 
 // noteCounter remembers, for the conservation oracle, which scope a counter came from and the name|tags
@@ -1155,6 +1189,7 @@ func runScopeProgram(c *Ctx, r *Rng, mode string) {
 			case 2:
 				m := sr.scopes[p].Timer(name)
 				sr.say(fmt.Sprintf("timer %d %s => %s %s", p, hxs(name), sr.midOf(m, "timer"), sr.events()), "metric")
+				sr.noteObject("timer", m, p, name)
 			default:
 				var b tally.Buckets
 				switch r.Intn(4) {
@@ -1183,6 +1218,7 @@ func runScopeProgram(c *Ctx, r *Rng, mode string) {
 				m := sr.scopes[p].Histogram(name, b)
 				sr.say(fmt.Sprintf("hist %d %s %s => %s %s", p, hxs(name), specTok(b), sr.midOf(m, "hist"), sr.events()), "metric")
 				sr.noteHistMetric(m, p, name, b)
+				sr.noteObject("histogram", m, p, name)
 			}
 		case w < 78 && len(sr.metrics) > 0: // record
 			mid := r.Intn(len(sr.metrics))
